@@ -201,3 +201,9 @@ func (t *VT) QueryCfgDump() (string, error) {
 		"dis=" + strings.Join(cc.GetOptions().GetDisabledFunctions(), ","),
 	}, " "), nil
 }
+
+// NBTxTransferNb is the library transfer on the immediate route (end-to-end pipeline model: the
+// route without nonce bookkeeping).
+func (t *VT) NBTxTransferNb(sender *types.Sender, to *types.Address, amount *big.Int, ref string) error {
+	return t.TxTransfer(sender, to, amount, ref)
+}
